@@ -9,6 +9,7 @@ from .gen_cmp import Field, TypeSpec, Variant, entry_attrs, place, candidate_des
 
 PID = "C01"
 ORD_TRAITS = ["Ord", "PartialOrd", "Eq", "PartialEq"]
+ORD_TRAITS_ALL = ["Ord", "PartialOrd", "Eq", "PartialEq"]
 
 HEADER = """// {pid} program {name}: {desc}
 use crate::support::*;
@@ -102,6 +103,11 @@ def all_candidates():
         if a in ("partial_ord", "partial_eq"):
             for ts in (["PartialOrd", "PartialEq"], ["PartialEq"]):
                 out.append(("s_po", [(0, a, o)], ts, "attr"))
+    # two attributed fields: every pair of single placements on the first and the last field of two shapes
+    for sh, i, j in (("s_named3", 0, 2), ("e_mixed", 2, 3)):
+        for (a1, o1) in single:
+            for (a2, o2) in single:
+                out.append((sh, [(i, a1, o1), (j, a2, o2)], ORD_TRAITS_ALL, "attr"))
     return out
 
 
@@ -139,6 +145,14 @@ def core_candidates():
     for (a, o) in single:
         if a in ("partial_ord", "partial_eq"):
             out.append(("s_po", [(0, a, o)], ["PartialOrd", "PartialEq"], "attr"))
+    # two attributed fields (tie-breaking after a custom comparator, independence of the per-field decisions)
+    two = [((0, "ord", ("key",)), (2, "ord", ("reverse",))), ((0, "ord", ("ignore",)), (2, "partial_ord", ("by",))), ((1, "eq", ("key",)), (2, "ord", ("reverse", "key"))),
+           ((0, "partial_eq", ("by",)), (1, "ord", ("by",))), ((0, "ord", ("reverse", "by")), (1, "ord", ("ignore",))), ((1, "partial_ord", ("reverse",)), (2, "partial_ord", ("key",)))]
+    for a, b in two:
+        out.append(("s_named3", [a, b], all4, "attr"))
+        out.append(("s_named3", [a, b], ["PartialOrd", "PartialEq"], "derive"))
+    for a, b in two[:3]:
+        out.append(("e_mixed", [(a[0] + 1, a[1], a[2]), (b[0] + 1, b[1], b[2])], all4, "attr"))
     # the `$` placeholder at top level, inside (), {} and [] groups, and used twice
     for ks in range(1, len(gen_cmp.KEY_STYLES)):
         for sh, idx in (("s_named3", 1), ("e_mixed", 2), ("s_tuple2", 0), ("e_mixed", 3)):
@@ -156,10 +170,17 @@ def run(tier):
     else:
         cands = core_candidates()
         pool = all_candidates()
-        for c in rnd.sample(pool, 160):
+        sample = rnd.sample(pool, 160)
+        for c in sample:
             # vary the spelling of key expressions in the sampled part
             pl = [tuple(p) + ((rnd.randrange(len(gen_cmp.KEY_STYLES)),) if "key" in p[2] else ()) for p in c[1]]
             cands.append((c[0], pl, c[2], c[3]))
+        # seeded multi-field placements: two single placements of the same shape on different fields
+        singles = [c for c in pool if len(c[1]) == 1]
+        for _ in range(40):
+            a, b = rnd.choice(singles), rnd.choice(singles)
+            if a[0] == b[0] and a[1][0][0] != b[1][0][0]:
+                cands.append((a[0], [a[1][0], b[1][0]], a[2], a[3]))
     # dedupe
     seen, uniq = set(), []
     for c in cands:
@@ -193,9 +214,9 @@ def run(tier):
         "harness_results": counts,
         "candidates": len(uniq), "rejected_by_macro": rejected, "unconsumed_helper_attribute": leftover,
         "functions_encoded": ["PartialEq::eq / ne", "PartialOrd::partial_cmp", "Ord::cmp generated by derive_ex for each program"],
-        "bounds": "grammar: shapes %s; <=4 fields, <=3 variants; one attributed field (every position) or two attributes of different kinds on one field; "
+        "bounds": "grammar: shapes %s; <=4 fields, <=3 variants; one attributed field (every position), two attributes of different kinds on one field, or two attributed fields; "
                   "field types u8,i8,bool,u16,Po,generic A:=u8; no loops in harnesses (unwinding assertions on)" % sorted(gen_cmp.shapes()),
-        "outside_bounds": "more than one attributed field; `by` on a field of generic type (rustc rejects the nested fn, C20); field types outside the pool",
+        "outside_bounds": "more than two attributed fields (two: a fixed set + seeded pairs in quick, all pairs on first/last field of two shapes in thorough); `by` on a field of generic type (rustc rejects the nested fn, C20); field types outside the pool",
         "solver": "CBMC 6.11.0 via Kani 0.68.0 (cadical)", "solver_time_s": round(stats["solver_time_s"], 2),
         "kani_wall_s": round(stats["kani_wall_s"], 2), "queries_discharged": counts.get("success", 0),
     }
